@@ -113,7 +113,7 @@ class Taus(object):
             self.pexit_grid.axes, np.log10(self.pexit_grid.data)
         )
 
-        Pexit = np.zeros_like(betas)
+        Pexit = np.zeros(np.shape(betas))
 
         Pexit[valid] = pexit_interp((log_e_nu[valid], betas[valid]))
         Pexit[beta_low] = pexit_interp((log_e_nu[beta_low], beta_min))
@@ -135,7 +135,7 @@ class Taus(object):
 
         tau_cdf_sample = grid_cdf_sampler(self.tau_cdf_grid)
 
-        E_tau = np.zeros_like(betas)
+        E_tau = np.zeros(np.shape(betas))
 
         E_tau[valid] = tau_cdf_sample(
             log_e_nu[valid], betas[valid], None if u is None else u[valid]
